@@ -418,6 +418,11 @@ def t_policy(rec, seed, tier, shard):
 def t_directed(rec, seed, tier):
     """hand-picked boundary configurations (documented examples and the hard-limit edges)"""
     cases = [
+        # options for ALL schemes of one user category (documented inheritance: all < scheme < category-all < category-scheme)
+        {"config": {"schemes": ["sha256_crypt", "md5_crypt"], "admin__all__max_rounds": 2000, "sha256_crypt__default_rounds": 2500}, "probes": [["sha256_crypt", 1999, 0], ["sha256_crypt", 2000, 0], ["sha256_crypt", 2500, 0]]},
+        {"config": {"schemes": ["sha512_crypt", "pbkdf2_sha256"], "staff__all__min_rounds": 1500, "sha512_crypt__default_rounds": 1200, "pbkdf2_sha256__default_rounds": 100, "pbkdf2_sha256__max_rounds": 3000},
+         "probes": [["sha512_crypt", 1200, 0], ["sha512_crypt", 1500, 0], ["pbkdf2_sha256", 100, 0], ["pbkdf2_sha256", 1500, 0]]},
+        {"config": {"schemes": ["sha256_crypt", "md5_crypt"], "admin__all__vary_rounds": 0, "all__vary_rounds": "10%", "sha256_crypt__default_rounds": 2000}, "probes": [["sha256_crypt", 2000, 0]]},
         {"config": {"schemes": ["bsdi_crypt"], "bsdi_crypt__max_rounds": 200, "bsdi_crypt__default_rounds": 200}, "probes": [["bsdi_crypt", 199, 0], ["bsdi_crypt", 201, 0], ["bsdi_crypt", 200, 0]]},
         {"config": {"schemes": ["bsdi_crypt", "des_crypt"], "bsdi_crypt__rounds": 100, "deprecated": ["des_crypt"]}, "probes": [["des_crypt", None, 0], ["bsdi_crypt", 101, 0], ["bsdi_crypt", 99, 0]]},
         {"config": {"schemes": ["sha256_crypt", "md5_crypt"], "deprecated": ["auto"], "sha256_crypt__rounds": 1000}, "probes": [["md5_crypt", None, 0], ["sha256_crypt", 1000, 0], ["sha256_crypt", 1001, 0]]},
